@@ -1,6 +1,7 @@
 import Hertz.Proofs.PathSpec
 import Hertz.Proofs.PathRef
 import Hertz.Proofs.CleanPath
+import Hertz.Proofs.FsPath
 /-!
 # C07 — normalised request paths cannot climb out of the root
 
@@ -25,6 +26,21 @@ Also proved for **every** byte string (no length bound, no well-formedness hypot
   `p` (absolute or not, empty included) — exactly the predicate the driver evaluates on the
   implementation's output of the `cleanpath` op (`Hertz.Proofs.CleanPath`: between two segments the
   output buffer is `/` or `/s1/…/sn` with every `si` non-empty, slash-free, not `.`, not `..`).
+
+File-system side (`Hertz.Model.FsPath`, model of the path pipeline of `pkg/app/fs.go`; lemmas in
+`Hertz.Proofs.FsPath`).  For **every** Host header, request target and strip count, and every directory tree:
+* `stock_rewriters_total`, `rewritten_path_contained`: `NewPathSlashesStripper(n)` and `NewVHostPathRewriter(n)` never
+  hit their `panic`, the path they hand to the file handler is empty (stripper only) or contained, and `ctx.Path()`
+  is still contained after the vhost rewriter has rewritten the request URI;
+* `open_path_contained`: what `fsHandler.handleRequest` appends to `FS.Root` (after `stripTrailingSlashes`, the NUL
+  test and the `/../` guard) is empty or contained;
+* `resolution_stays_below`, `serve_inside_root`: the model of the kernel's path resolution never leaves the directory
+  it starts in when no component is `..`; hence with a stock rewriter (or none) every file or generated listing
+  that is served lies inside `FS.Root`, whatever the tree, for plain index names;
+* `custom_rewrite_inside_fails_at` / `custom_rewrite_inside_partial`: the same statement for an arbitrary
+  application-supplied `PathRewrite` that respects the documented contract ("no `/../` substring") is FALSE of the
+  code as it stands (known finding `fs-rewrite-trailing-dotdot`: the result `/..` passes the guard and opens the
+  parent of the root); it holds when the rewriter's result, after `stripTrailingSlashes`, is empty or contained.
 
 TODO-OPEN: nothing of the two statements that used to be listed here remains open.  What these theorems
 do not cover (unchanged): they are about the Lean models; that `normalizePath`/`cleanPath` are the Go
@@ -87,5 +103,132 @@ example : normalizePath [47, 97, 47, 37, 50, 101, 37, 50, 101, 47, 37, 50, 69, 3
     = [47, 120, 47] := by decide +kernel
 
 example : Spec.contained [47, 120, 47] = true ∧ Spec.contained [47, 46, 46, 47, 120] = false := by decide
+
+/-! ### file-system side: path rewriters and the file handler -/
+
+open Hertz.FsPath Hertz.Uri
+
+/-- The source text of the two stock rewriters, of the slash strippers, of `URI.SetPathBytes` and of the head of
+`fsHandler.handleRequest` is still the one the model mirrors (facts regenerated from the working tree on every run). -/
+theorem model_matches_gen_C07 :
+    FsPath.strInvalidHost = Gen.FsPath.strInvalidHost ∧
+    Gen.FsPath.slashesStripper = ["return stripLeadingSlashes(ctx.Path(), slashesCount)"] ∧
+    Gen.FsPath.vhostRewriter.getLast? = some "return ctx.Path()" ∧
+    "ctx.URI().SetPathBytes(b.B)" ∈ Gen.FsPath.vhostRewriter ∧
+    Gen.FsPath.handleRequestHead.length = 13 :=
+  ⟨model_matches_gen.1, model_matches_gen.2.2.1, by rw [model_matches_gen.2.1]; rfl,
+   by rw [model_matches_gen.2.1]; decide, by rw [model_matches_gen.2.2.2.2.2.1]; rfl⟩
+
+/-- a tree for the sanity examples: base `{i, x/ {i}, r/ {i, f, x/ {f}, ../ (a directory literally named "..")… }}`;
+names are single bytes: `r` = 114 is the root, `i` = 105 the index file, `x` = 120, `f` = 102 -/
+def tinyTree : Tree :=
+  { dirs := [[[114]], [[120]], [[114], [120]]],
+    files := [[[105]], [[120], [105]], [[114], [105]], [[114], [102]], [[114], [120], [102]]] }
+
+def tinyCfg : FsCfg := { root := [114], indexNames := [[105]], genIndex := true }
+
+/-- The two rewriters that ship with hertz never reach `panic("BUG: path must start with slash")`. -/
+theorem stock_rewriters_total (rw : Rewriter) (hs : Stock rw) (host target : Bytes) :
+    ∃ r, rewrite rw (Uri.parse host target) = some r :=
+  rewrite_total hs (parse_good host target)
+
+/-- The path a stock rewriter hands to the file handler is empty or contained, and `ctx.Path()` afterwards (the vhost
+rewriter rewrites the request URI) is contained: for every Host header, request target and strip count. -/
+theorem rewritten_path_contained (rw : Rewriter) (hs : Stock rw) (host target p : Bytes) (u' : URI)
+    (h : rewrite rw (Uri.parse host target) = some (p, u')) :
+    Spec.servable p = true ∧ Spec.contained u'.pathOrSlash = true :=
+  let g := rewrite_good hs (parse_good host target) h
+  ⟨servable_of g.1, good_contained g.2⟩
+
+/-- sanity: `Host: ..` with `GET /x/f` through `NewVHostPathRewriter(0)` is rewritten to `/x/f` (the host climbs to
+the root and no further), and `NewPathSlashesStripper(1)` on `/x/f` gives `/f`. -/
+example : (rewrite (.vhost 0) (Uri.parse [46, 46] [47, 120, 47, 102])).map (·.1) = some [47, 120, 47, 102] ∧
+    (rewrite (.stripper 1) (Uri.parse [97] [47, 120, 47, 102])).map (·.1) = some [47, 102] := by decide +kernel
+
+/-- What `handleRequest` appends to `FS.Root` is empty or contained (stock rewriters, every request). -/
+theorem open_path_contained (rw : Rewriter) (hs : Stock rw) (host target p : Bytes) (u' : URI)
+    (h : decision rw (Uri.parse host target) = some (.openPath p, u')) : Spec.servable p = true :=
+  servable_of (decision_good hs (parse_good host target) h).1
+
+/-- sanity: `GET /x/` with `Host: r` and one stripped segment opens `root + "/r"`. -/
+example : (decision (.vhost 1) (Uri.parse [114] [47, 120, 47])).map (·.1) = some (.openPath [47, 114]) := by
+  decide +kernel
+
+/-- The model of the kernel's path resolution, started in a directory whose path begins with `R`, ends below `R`
+(or fails) when no component is `..` — for every tree. -/
+theorem resolution_stays_below (t : Tree) (R : Bytes) (segs cur : List Bytes) (hc : cur.head? = some R)
+    (hs : ∀ s ∈ segs, s ≠ [46, 46]) : Found.inside R (walk t cur segs) :=
+  walk_inside t R segs cur hc hs
+
+/-- sanity: in `tinyTree`, `r/x/./f` resolves to the file `r/x/f`, while `r/..` (a `..` component) resolves to the
+base directory, outside `r`: the hypothesis of `resolution_stays_below` is needed. -/
+example : walk tinyTree [[114]] [[120], [46], [102]] = .file [[114], [120], [102]] ∧
+    walk tinyTree [[114]] [[46, 46]] = .dir [] := by decide +kernel
+
+/-- **Nothing outside `FS.Root` is served**: with no rewriter, `NewPathSlashesStripper(n)` or
+`NewVHostPathRewriter(n)`, for every Host header, request target, strip count, directory tree and configuration whose
+root is a plain name below the base and whose index names have no `..` component, the file or generated listing that
+`fsHandler.handleRequest` serves lies inside the root. -/
+theorem serve_inside_root (t : Tree) (cfg : FsCfg) (hR : PlainName cfg.root)
+    (hn : ∀ n ∈ cfg.indexNames, ∀ s ∈ Spec.splitSlash n, s ≠ Spec.dotdot)
+    (rw : Rewriter) (hs : Stock rw) (host target : Bytes) (s : Served) (u' : URI)
+    (h : serve t cfg rw (Uri.parse host target) = some (s, u')) : Served.inside cfg.root s := by
+  unfold serve at h
+  cases hd : decision rw (Uri.parse host target) with
+  | none => rw [hd] at h; simp at h
+  | some du =>
+    obtain ⟨d, u0⟩ := du
+    rw [hd] at h
+    simp only [Option.map_some, Option.some.injEq] at h
+    cases d with
+    | badRequest => simp only [Prod.mk.injEq] at h; rw [← h.1]; trivial
+    | guard => simp only [Prod.mk.injEq] at h; rw [← h.1]; trivial
+    | openPath p =>
+      simp only [Prod.mk.injEq] at h
+      rw [← h.1]
+      exact openServe_inside t cfg hR hn (open_path_contained rw hs host target p u0 hd)
+
+/-- sanity for `serve_inside_root`: `GET /` with `Host: ..` through the vhost rewriter serves the root's own index
+file `r/i` (not `i` of the directory above), and `GET /x/` with `Host: .` lists `r/x`. -/
+example : (serve tinyTree tinyCfg (.vhost 0) (Uri.parse [46, 46] [47])).map (·.1) = some (.file [[114], [105]]) ∧
+    (serve tinyTree tinyCfg (.vhost 0) (Uri.parse [46] [47, 120, 47])).map (·.1) = some (.listing [[114], [120]]) ∧
+    PlainName tinyCfg.root ∧ (∀ n ∈ tinyCfg.indexNames, ∀ s ∈ Spec.splitSlash n, s ≠ Spec.dotdot) := by
+  refine ⟨by decide +kernel, by decide +kernel, by unfold PlainName tinyCfg; decide, by decide⟩
+
+/-- The same containment for an ARBITRARY application-supplied `PathRewrite` that keeps the documented contract
+("the returned path must not contain '/../' substrings") is false of the code as it stands: the result `/..` passes
+the handler's guard, `os.Open(root + "/..")` opens the directory above the root and its index file is served
+(known finding `fs-rewrite-trailing-dotdot`; replayed against the implementation by `fsguard b 2f2e2e`). -/
+theorem custom_rewrite_inside_fails_at :
+    ¬ (∀ (raw : Bytes) (s : Served) (u' : URI), ¬ DDS <:+: raw →
+        serve tinyTree tinyCfg (.custom raw) {} = some (s, u') → Served.inside tinyCfg.root s) := by
+  intro h
+  have := h [47, 46, 46] (.file [[105]]) {} (by decide) (by decide +kernel)
+  revert this
+  show ¬ ([[105]] : List Bytes).head? = some [114]
+  decide
+
+/-- … and it holds when the rewriter's result is, after `stripTrailingSlashes`, empty or contained. -/
+theorem custom_rewrite_inside_partial (t : Tree) (cfg : FsCfg) (hR : PlainName cfg.root)
+    (hn : ∀ n ∈ cfg.indexNames, ∀ s ∈ Spec.splitSlash n, s ≠ Spec.dotdot)
+    (raw : Bytes) (hraw : Spec.servable (stripTrailingSlashes raw) = true) (u u' : URI) (s : Served)
+    (h : serve t cfg (.custom raw) u = some (s, u')) : Served.inside cfg.root s := by
+  by_cases h1 : (stripTrailingSlashes raw).contains 0 = true
+  · simp only [serve, decision, rewrite, Option.map_some, h1, if_true, Option.some.injEq, Prod.mk.injEq] at h
+    rw [← h.1]; trivial
+  · by_cases h2 : (Rewriter.custom raw != Rewriter.none &&
+        containsSub Hertz.Gen.Str.strSlashDotDotSlash (stripTrailingSlashes raw)) = true
+    · simp only [serve, decision, rewrite, Option.map_some, h1, h2, if_true, if_false, Bool.false_eq_true,
+        Option.some.injEq, Prod.mk.injEq] at h
+      rw [← h.1]; trivial
+    · simp only [serve, decision, rewrite, Option.map_some, h1, h2, if_false, Bool.false_eq_true,
+        Option.some.injEq, Prod.mk.injEq] at h
+      rw [← h.1]
+      exact openServe_inside t cfg hR hn hraw
+
+/-- sanity for `custom_rewrite_inside_partial`: a rewriter returning `/x//` serves the listing of `r/x`. -/
+example : Spec.servable (stripTrailingSlashes [47, 120, 47, 47]) = true ∧
+    (serve tinyTree tinyCfg (.custom [47, 120, 47, 47]) {}).map (·.1) = some (.listing [[114], [120]]) := by
+  decide +kernel
 
 end Hertz.Props.C07
